@@ -18,6 +18,7 @@ RULE = ('per schema (four families x XSD 1.0/1.1: xsi:type that widens identity 
         'is_valid on the per-schema scratch context}; every result is compared with the result of the same call on a freshly '
         'built schema; a case = one history step; distinct non-trivial = distinct (family, previous operation kind, operation '
         'kind) pairs whose previous operation left observable shared state or was aborted')
+RULE += (' ' + 'Every shop pool has one undeclared tag under the lax wildcard in the forms the wildcard treats differently (plain, xsi:type, xsi:nil, both, bad typed value).')
 ASSUMPTIONS = [
     'results are compared as (verdict, ordered error reasons with memory addresses stripped, repr of decoded data)',
     'calls that document a state change (build(), clear(), use_location_hints=True) are not part of histories',
